@@ -19,7 +19,8 @@ META = {
             "(every rank ends with the concatenation of the ranks' lists in rank order), and so is the tail of shape_to_functions that gathers the rewritten trees (the three parallel "
             "lists -- tree, string, string of the original -- are joined in rank order and stay aligned), the two proposal exchanges of sympy_simplify (change_indices / ref_indices / new_inv_subs) "
             "and the exchange of expand_or_factor (change_vals / change_idx), all through one generic contract for gather / itertools.chain / bcast of parallel lists. check_results: the hand-out of the functions to verify (every rank receives functions, map rows and -- through np.array_split, a second splitting mechanism -- matches of the SAME positions "
-            "LO(r)..LO(r+1)-1 of the shuffled list). The dictionary merge of initial_sympify and the gather of check_results' findings are not lifted deductively; they are covered by the structural obligations and the bounded runs.",
+            "LO(r)..LO(r+1)-1 of the shuffled list). The dictionary merge of initial_sympify is verified too (keys of all ranks; the value of a key is that of its first occurrence in rank order -- the same on every rank). "
+            "The gather of check_results' findings is not lifted deductively; they are covered by the structural obligations and the bounded runs.",
     "note": "A-mpi (stand-in delivers collectives in rank order like MPI), A-hash (hash seed fixed per run). Bounded: core_maths/ext_maths, complexities in evidence.",
     "technique": "contract-based deductive verification of the partition function + bounded multi-process stand-in of generation",
 }
@@ -41,10 +42,13 @@ def check(run):
                                                "utils.split_idx by its contract with the slice starts abstracted to LO (facts proved as lemmas)")
     st4, failed4, _e4 = D.verify_function(run, "generation/simplifier.py", "initial_sympify", c_spmd.initial_sympify_merge_contract, timeout_ms=10000, tag="exchange",
                                           note="region: the all-to-all exchange of the printed strings after the per-rank sympify loop (gather of the slice lengths, "
-                                               "cumulative sum, one bcast per root); the merge of the expression dictionaries that follows is not under contract")
+                                               "cumulative sum, one bcast per root)")
     if st4 == "proved" and D.canary(run, "generation/simplifier.py", "initial_sympify", c_spmd.initial_sympify_merge_contract) is False:
         raise RuntimeError("canary verified: engine vacuous on the exchange region of initial_sympify")
     failed3 = list(failed3) + list(failed4)
+    st9, failed9, _e9 = D.verify_function(run, "generation/simplifier.py", "initial_sympify", c_spmd.initial_sympify_dict_contract, timeout_ms=10000, tag="dictionary merge",
+                                          note="region: the `if save_sympy:` block after the exchange (one bcast of keys and one of values per root, first occurrence wins)")
+    failed3 = list(failed3) + list(failed9)
     for root in (True, False):
         st5, failed5, _e5 = D.verify_function(run, "generation/generator.py", "shape_to_functions", (lambda root=root: c_spmd.stf_gather_contract(root)), timeout_ms=10000,
                                               tag="gather %s" % ("root" if root else "other ranks"),
